@@ -58,6 +58,8 @@ def rule_a(ctx):
     want_b_lin = bp @ An if side == "left" else An @ bp
 
     # effect of the update statements as substitutions, per mode (the `if mode == 'affine'` arm is taken or not)
+    loc = {}
+
     def run(stmts, A, b, affine):
         for s in stmts:
             if isinstance(s, ast.If):
@@ -67,13 +69,20 @@ def rule_a(ctx):
                 continue
             if isinstance(s, ast.Assign):
                 a = self_attr(s.targets[0])
+                conv = ToNC(symbolize=lambda n: (A if norm(n) == "self.balance_scaling" else b if norm(n) == "self.balance_translation"
+                                                 else loc[n.id] if isinstance(n, ast.Name) and n.id in loc else sym(n)))
                 if a in ("balance_scaling", "balance_translation"):
-                    conv = ToNC(symbolize=lambda n: (A if norm(n) == "self.balance_scaling" else b if norm(n) == "self.balance_translation" else sym(n)))
-                    v = conv(s.value)
+                    v = conv(expand(f.node, s.value))
                     if a == "balance_scaling":
                         A = v
                     else:
                         b = v
+                elif len(s.targets) == 1 and isinstance(s.targets[0], ast.Name):
+                    # a local accumulator (may be re-assigned on the affine arm): tracked like the attributes
+                    try:
+                        loc[s.targets[0].id] = conv(expand(f.node, s.value))
+                    except Exception:
+                        loc.pop(s.targets[0].id, None)
         return A, b
 
     # the callable interface is find_balance followed by the class's own apply_balance (dynamic dispatch: the affine classes add the translation there)
@@ -92,6 +101,7 @@ def rule_a(ctx):
     body = f.node.body
     idx = max(i for i, s in enumerate(body) if any(isinstance(c, ast.Call) and norm(c.func) == f"{stage}.find_balance" for c in ast.walk(s)))
     for affine in (True, False):
+        loc.clear()
         A, b = run(body[idx + 1:], Ap, bp, affine)
         mode = "affine" if affine else "diagonal/linear"
         ctx.ob(R, f.qname, f"{mode} stage: accumulated scaling is {'A_prev @ A_new' if side == 'left' else 'A_new @ A_prev'}", A == want_A,
@@ -111,9 +121,9 @@ def rule_b(ctx, side):
              "cannot increase)")
     m = ctx.model
     spec = {
-        "ColorBalance": dict(x0="self.balance_scaling.flatten()", A="P.reshape((3, 3))", b=None, store={"balance_scaling": "OPT.x.reshape((3, 3))"}),
+        "ColorBalance": dict(x0="np.ravel(self.balance_scaling)", A="P.reshape((3, 3))", b=None, store={"balance_scaling": "OPT.x.reshape((3, 3))"}),
         "WhiteBalance": dict(x0="np.diag(self.balance_scaling)", A="np.diag(P)", b=None, store={"balance_scaling": "np.diag(OPT.x)"}),
-        "AffineBalance": dict(x0="np.concatenate((self.balance_scaling.flatten(), self.balance_translation))", A="P[:9].reshape((3, 3))", b="P[9:12]",
+        "AffineBalance": dict(x0="np.concatenate((np.ravel(self.balance_scaling), self.balance_translation))", A="P[:9].reshape((3, 3))", b="P[9:12]",
                               store={"balance_scaling": "OPT.x[:9].reshape((3, 3))", "balance_translation": "OPT.x[9:12]"}),
     }
     for cname, sp in spec.items():
